@@ -3,7 +3,7 @@ CONSTANTS
   Msgs = {"absent", "utf8"}
   Pfxs = {"std", "other", "none"}
   Types = {"t1", "t2"}
-  Vals = {0, 1}
+  Vals = {0, 3}
   MaxDetails = 4
   Routes = {"connect"}
 INIT Init
